@@ -122,7 +122,12 @@ var c18Templates = map[string]string{
 	"dates.txt":   "{{ tm1|date('jS F Y') }}|{{ tm2|date('dS M') }}|{{ tm3|date('D, d M Y H:i:s') }}|{{ tm22|date('S') }}|{{ tm1|date('Y') }}|{{ tm2|date }}",
 	"dates2.txt":  "{% for d in [tm1, tm2, tm3, tm22, tm11] %}{{ d|date('jS') }},{% endfor %}{{ tm3|date('c') }}|{{ tm11|date('l jS \\o\\f F') }}",
 	"numbers.txt": "{{ 1234.567|number_format(2, ',', '.') }}|{{ 0.5|round }}|{{ 2.5|round(0, 'floor') }}|{{ items|json_encode }}|{{ dec|json_encode }}|{{ [dec, 1.5]|json_encode }}|{{ dec }}|{{ 7|abs }}|{{ 'a,b'|split(',')|join('+') }}",
-	"tests.txt":   "{{ 4 is pos }}{{ 0 is not pos }}{% for i in items if i %}{{ loop.index }}{{ i }}{% else %}none{% endfor %}",
+	// filter sections naming the escaping filters and every other string filter, next to templates that apply the same
+	// filters to single values: a section is not entitled to anything that other callers can see
+	"fsec.html": "{% filter escape %}<s>{{ x }}{% for i in items %}{{ i|escape }}{% endfor %}</s>{% endfilter %}|{% filter upper|escape %}<u>{{ x|e }}{% endfilter %}|{% filter e %}'{{ x|raw }}'{% endfilter %}",
+	"fsec.txt":  "{% filter lower|title|trim|capitalize %} {{ x }} {% filter nl2br|striptags|url_encode %}a\nb{{ x }}{% endfilter %}{% endfilter %}{% filter raw %}{{ x }}{% endfilter %}{% filter escape %}<{{ x }}>{{ meet() }}{% endfilter %}",
+	"fsec.js":   "{% filter escape %}'{{ x }}'{% filter e %}{{ x|escape }}{% endfilter %}{% endfilter %}{{ x|escape('html') }}{{ x|e }}",
+	"tests.txt": "{{ 4 is pos }}{{ 0 is not pos }}{% for i in items if i %}{{ loop.index }}{{ i }}{% else %}none{% endfor %}",
 }
 
 // c18Shared / c18SharedMap are read-only values that every context refers to (the same Go slice, with spare
